@@ -236,6 +236,9 @@ def run(chk):
         X0 = np.repeat(pts, r.choice([2, 3]), axis=0)
         g.shuffle(X0)
         init0 = pts + 0.01 * g.normal(size=(K, D))
+        near0 = np.argmin(((init0[:, None, :] - pts[None, :, :]) ** 2).sum(-1), axis=0)
+        if not np.array_equal(near0, np.arange(K)):
+            continue            # two of the drawn points lie closer together than the perturbation: a cluster would start empty (not this scenario)
         for dask_in in (False, True):
             ch0 = gen.random_composition(r, len(X0), 3) if dask_in else None
             try:
